@@ -14,7 +14,7 @@ from rsim.prf import Rng, digest
 PROP = "C16"
 LEVEL = "exploration"
 TIERS = {
-    "quick": {"cases": 450, "budget_s": 80, "batch": 64},
+    "quick": {"cases": 600, "budget_s": 150, "batch": 64},
     "thorough": {"cases": 5000, "budget_s": 900, "batch": 64},
 }
 RULE = (
@@ -264,6 +264,10 @@ def gen_case(seed, tier, index=0):
             files.append({"path": "src/w.png", "content": G.BINARY})
         if any(p == ".gitmodules" for _, p, _ in picks):
             case["force_git"] = True
+        if rng.chance(0.2):
+            # several files of one invocation that cannot be decoded: the exit status stays one of the documented ones
+            for i in range(rng.randint(3, 5)):
+                files.append({"path": f"src/u{i}.py", "content": "# caf\udce9 number %d\nx = 1\n" % i})
         if rng.chance(0.15):
             case["fifo"] = rng.pick(["src/a.py.license", "src/pipe", "docs/c.md.license"])
         if rng.chance(0.3):
